@@ -103,6 +103,9 @@ func (s *Sim) drainHooks() {
 	q := hookQ
 	hookQ = nil
 	hookMu.Unlock()
+	// hook events of different daemons that arrive in the same batch are ordered by the Go
+	// scheduler: process them per daemon (each daemon's own order is kept)
+	sort.SliceStable(q, func(i, j int) bool { return q[i].lockfile < q[j].lockfile })
 	for _, h := range q {
 		var d *Daemon
 		for _, x := range s.daemons {
